@@ -27,6 +27,19 @@ pub struct HistSc {
     pub hash_seed: u64,
     pub initial: Vec<(usize, usize, u64)>,
     pub ops: Vec<Op>,
+    /// C01/C02 monitor: how much is observed (0 lists, 1 + degrees/predicates, 2 + all lookups)
+    #[serde(default = "two")]
+    pub monitor: u8,
+    /// C01/C02 monitor: evaluated after every `check_every`-th call and after the last one
+    #[serde(default = "one")]
+    pub check_every: usize,
+}
+
+fn two() -> u8 {
+    2
+}
+fn one() -> usize {
+    1
 }
 
 pub struct Hist {
@@ -206,7 +219,13 @@ fn run_inner<F: Flavour>(sc: &HistSc, verdict: Verdict, stats: &mut Stats, solo:
                     stats.note(format!("a call did not return normally ({}): decided under C03", op.name()));
                 }
                 let name = if verdict == Verdict::Mirror { "mirror" } else { "symmetry" };
-                match caught(|| world.check_invariant()) {
+                let due = (i + 1) % sc.check_every.max(1) == 0 || i + 1 == sc.ops.len() || obs.is_failure();
+                if !due {
+                    stats.mark("abstract_states", model.shape_hash());
+                    continue;
+                }
+                stats.inc(&format!("invariant_evaluations_level_{}", sc.monitor));
+                match caught(|| world.check_invariant_level(sc.monitor)) {
                     Caught::Ok(Ok(())) => {}
                     Caught::Ok(Err(m)) => {
                         return Some((
@@ -315,6 +334,8 @@ impl Engine for Hist {
             hash_seed: rng.next_u64(),
             initial,
             ops,
+            monitor: *rng.pick(&[0u8, 0, 1, 2, 2]),
+            check_every: *rng.pick(&[1usize, 1, 1, 2, 5, 1000]),
         }
     }
 
